@@ -32,6 +32,7 @@ def Val.classes : Val → List String
   | .inp (.date ..) => ["datetime.date"]
   | .inp (.datetime _) => ["datetime.datetime", "datetime.date"]
   | .inp (.time ..) => ["datetime.time"]
+  | .inp (.num ..) => []       -- a numeric class: by the constructor's contract none of the classes the casts test (text, bytes, date, time)
   | .inp .other => []
   | .noneV => []
   | .text _ => ["str"]
